@@ -88,7 +88,7 @@ pub(crate) fn pb(bytes: &[u8]) -> String {
 // `idin local=<j> peer=<i> conn=<0|1> ep=<addr> pv=<hex> agent=<hex|none> protos=<list>
 //       listen=<list> public=<list> cap=<n> <step>...`
 //     our answer on an inbound identify substream: `t:<s>` time passes, `rd:<n>` the remote reads
-//     `n` bytes. Observation: `sent <all bytes the remote got>`.
+//     `n` bytes. Observation: `sent <all bytes the remote got> #local <peer id>`.
 // `idrt …same arguments as idin, without steps… split=<k>`   node A answers an inbound substream, the
 //     bytes are fed (cut after `k` bytes) into node B's outbound handler; B's event.
 // ---------------------------------------------------------------------------------------------
@@ -380,9 +380,10 @@ impl Rig {
         }
         Some(self.rt.block_on(async move {
             let mut node = Node::start(spec);
+            let local = node.local;
             let (sent, _closed) = run_inbound(&mut node, remote, conn, ep, cap, &steps).await;
             node.finish().await;
-            format!("sent {}", hexd(&sent))
+            format!("sent {} #local {}", hexd(&sent), crate::verif::hex(&local.to_bytes()))
         }))
     }
 
